@@ -275,7 +275,24 @@ def r5_for(run, b, AP):
            reason="primary-key-encoding")
 
 
+def r7(run):
+    """What a read returns is decided by the store alone: every value Store::iter_frames returns is a scan of a partition range.
+    A return that is not (an empty iterator behind an in-memory "nothing newer" cache, a Vec collected earlier) answers from state
+    that can disagree with the stored frames (e.g. after an import of an older id)."""
+    it = C.body_or_fail(run, C.ITER_FRAMES)
+    rets = it.return_defs()
+    run.floor("return definitions of Store::iter_frames", len(rets), 1, it.sp)
+    for (bb, e, raw) in rets:
+        x = strip(e)
+        alts = list(x[3]) if x[0] == "phi" else [x]
+        for i, a in enumerate(alts):
+            scans = [y for y in walk(a) if y[0] == "call" and y[1].fn in (C.PARTITION_RANGE, "fjall::partition::PartitionHandle::prefix", "fjall::partition::PartitionHandle::iter")]
+            run.ob("%s|returns-a-scan|%d" % (C.ITER_FRAMES, i) if len(alts) > 1 else "%s|returns-a-scan" % C.ITER_FRAMES, bool(scans),
+                   it.blocks[bb]["term"]["sp"], "iter_frames returns a scan of a partition range: %s" % fmt(a)[:100], reason="read-answered-from-cache")
+
+
 RULES = [
+    ("R-C01-7", "every iterator Store::iter_frames returns is a scan of the stored partitions (no answer from in-memory state)", r7),
     ("R-C01-1", "range bounds: a bound built from last_id is Excluded; context scans are [ctx, ctx+1)", rule_range_bounds),
     ("R-C01-2", "read_sync applies the expiry filter before take(limit) and forwards its scope", r2),
     ("R-C01-3", "history loop: expired frames are neither delivered nor counted; only delivered frames count; sends only below the limit", r3),
